@@ -117,7 +117,11 @@ func (t *ReuseConnTransport) exchangeConnCtx(ctx context.Context, payload []byte
 	}
 	resChan := make(chan res, 1)
 
+	// The goroutine may still be writing the payload after this call returned
+	// (ctx was done) and the caller released its buffer. It needs its own copy.
+	payload = copyMsg(payload)
 	go func() {
+		defer pool.ReleaseBuf(payload)
 		resp, err := t.exchangeConn(payload, c)
 		resChan <- res{m: resp, err: err}
 		t.releaseConn(c, err)
